@@ -64,3 +64,18 @@ func init() {
 		}, stubCommon...),
 	}
 }
+
+func init() {
+	cfgs["C14"] = &propCfg{
+		Workers: map[string]int{"pristine": 6, "instr": 6, "pristine-race": 2, "instr-race": 2},
+		QuickS:  30, ThorS: 600,
+		Real: []string{"Server.serveUDP/serveTCPConn/serveDNS (header parse, accept policy switch, reject reply construction, MsgInvalidFunc reporting)", "DefaultMsgAcceptFunc", "ServeMux.Handle/HandleRemove/ServeDNS/match", "handleRefused, SetReply/SetRcode/SetRcodeFormatError", "Msg.Unpack/Pack"},
+		Stub: stubCommon,
+		Rule: "A run is either an 'admission' scenario (1..40 inbound packets from 1..3 Byzantine peers over UDP or TCP: valid queries of many shapes, every opcode, QR set, NOTIFY with an answer, IXFR with an authority record, 0..3 additional records, two questions, then truncation to any length, bit flips, section-count lies, compression-pointer rewrites, splices, header-only, trailing garbage, zero-length frames; default or random accept policy; datagram duplication; segmentation; yielding accept policy) or a 'mux' scenario (2..4 tasks issuing 4..36 Handle / HandleRemove / ServeDNS operations on one real ServeMux over a 3-label alphabet with mixed case, DS and non-DS types, handlers that park). Non-trivial = at least one packet was read by the server / one mux operation ran. Distinct = distinct trace digest per build.",
+		Assume: append([]string{
+			"whether the body of an accepted message 'decodes' is decided by the library's own Unpack on the same octets (decoder correctness is C01/C02); the accept decision, reply skeletons and routing are judged by independent models (oracle/server.go, oracle/wire.go)",
+			"NSCOUNT = 1 under the default policy is not asserted either way (doc comment and code disagree)",
+			"porcupine v1.3.0 decides linearizability of the mux history; a timeout (Unknown) is inconclusive and never reported",
+		}, stubCommon...),
+	}
+}
